@@ -37,6 +37,16 @@ Judged forms
              limit+offset / offset, and ``full[:X][Y:]`` must be the slice.  Texts that are not
              exactly one such wrapper (nested, compound) are counted, not judged.
 
+  replay     one statement *shape* (one cache key) executed 3-5 times with different limit /
+             offset values, zero in any position, natively and through the real Engine +
+             compiled cache of mysql, mariadb, postgresql, mssql (old/new) and oracle (12c and
+             ROWNUM) on a recording DBAPI; the (sql, params) the Engine sent is inlined
+             (integers only), translated as in ``text`` and executed on SQLite.
+  orm-eager  ORM entity queries (select() and Query) with a joined / lazy="joined" / selectin /
+             subquery loaded collection x {limit, offset, both, neither} x asc/desc x
+             plain/distinct/group_by/where; entity ids and complete collection contents must
+             equal the slice of the unsliced entity list (children read through raw SQL).
+
 Guards: MSSQL documents CompileErrors for OFFSET without ORDER BY and for
 PERCENT / WITH TIES with OFFSET - not generated.  MySQL's ``LIMIT o, 18446744073709551615``
 (documented "no limit" idiom) exceeds SQLite's integer range and is rewritten to -1.
@@ -64,6 +74,8 @@ META = {
         "nested_limited_subqueries", "bind_or_expr_limits",
         "chained_slice_cases", "chains_slice_from_zero_after_offset", "orm_query_chains",
         "oracle_rownum_judged", "oracle_rownum_limit_and_offset",
+        "replay_sequences", "replay_cache_hits", "cached_replays_executed", "replay_zero_nonzero_offset_transitions",
+        "orm_eager_collection_cases", "orm_joined_eager_offset_only", "orm_eager_parents_with_0_or_many_children",
     ],
     "assumptions": [
         "SQLite's LIMIT/OFFSET and ROW_NUMBER() OVER (ORDER BY ...) are the reference semantics",
@@ -252,8 +264,22 @@ def run(ctx):
     class A:
         pass
 
+    class B:
+        pass
+
+    class AJ:       # second mapping of the same tables: collection is lazy="joined"
+        pass
+
+    class BJ:
+        pass
+
     reg = orm.registry()
-    reg.map_imperatively(A, md.tables["a"])
+    ta, tb = md.tables["a"], md.tables["b"]
+    reg.map_imperatively(B, tb)
+    reg.map_imperatively(A, ta, properties={"bs": orm.relationship(B, primaryjoin=ta.c.id == orm.foreign(tb.c.a_id), order_by=tb.c.id)})
+    reg.map_imperatively(BJ, tb)
+    reg.map_imperatively(AJ, ta, properties={"bs": orm.relationship(BJ, primaryjoin=ta.c.id == orm.foreign(tb.c.a_id), lazy="joined", order_by=tb.c.id)})
+    replay_engines = make_replay_engines(ctx)
 
     try:
         conn = eng.connect()
@@ -292,6 +318,16 @@ def run(ctx):
             for _ in range(ctx.pick({"quick": 10, "thorough": 40})):
                 nested_case(ctx, sa, conn, raw, md, rng, DIALECTS,
                             captured, NoInnerLimitCompiler, sqlite3, ds)
+            # one cached statement shape, several limit/offset values (zero in any position)
+            for _ in range(ctx.pick({"quick": 12, "thorough": 60})):
+                if not ctx.budget_ok():
+                    break
+                replay_sequence(ctx, sa, conn, raw, md, rng, replay_engines, sqlite3, ds)
+            # ORM entities with eagerly loaded collections
+            for _ in range(ctx.pick({"quick": 40, "thorough": 200})):
+                if not ctx.budget_ok():
+                    break
+                orm_eager_case(ctx, sa, orm, conn, raw, rng, ds, (A, AJ))
             # chained limit()/offset()/slice()/Query[...] compositions
             for _ in range(ctx.pick({"quick": 40, "thorough": 200})):
                 if not ctx.budget_ok():
@@ -302,6 +338,9 @@ def run(ctx):
         conn.close()
     finally:
         mssql_base.MSSQLCompiler.translate_select_structure = orig_translate
+        for _k, _f, e_, _fk, c_ in replay_engines:
+            c_.close()
+            e_.dispose()
         reg.dispose()
         eng.dispose()
 
@@ -379,40 +418,47 @@ def judge_forms(ctx, sa, conn, raw, stmt_for, expected, desc, dialects, captured
         except sa_exc.CompileError as e:
             ctx.violation(compile_mech(fam, desc, e), f"{desc}: {e}", desc)
     for key, fam, text in forms:
-        if text is None:
-            continue
-        tr = translate_text(text, fam)
-        if tr is None:
-            ctx.count("text_forms_untranslatable")
-            continue
-        try:
-            got = [tuple(r) for r in raw.execute(tr).fetchall()]
-        except sqlite3.Error as e:
-            ctx.count("text_forms_untranslatable")
-            ctx.seen("text_errors", f"{key}: {str(e)[:100]}")
-            continue
-        ctx.count("text_forms_executed")
-        kind = key
-        if fam == "mssql":
-            kind = "mssql-rownumber" if "ROW_NUMBER" in text else ("mssql-top" if re.match(r"\s*SELECT\s+(DISTINCT\s+)?TOP", text) else "mssql-offset-fetch")
-        elif fam == "oracle":
-            kind = "oracle-offset-fetch"
-        elif fam == "postgresql":
-            kind = "postgresql"
-        elif fam == "mysql":
-            kind = "mysql"
+        if text is not None:
+            judge_text(ctx, raw, sqlite3, key, fam, text, expected, desc, nontrivial, exact_order)
+
+
+def judge_text(ctx, raw, sqlite3, key, fam, text, expected, desc, nontrivial, exact_order=True, how="text-form"):
+    """Execute one dialect's (literal) SQL text on SQLite after the clause translation and
+    compare with the slice.  ``how``: "text-form" (fresh literal_binds compile) or
+    "cached-replay" (what the Engine sent to the DBAPI when it re-used a cached compile)."""
+    tr = translate_text(text, fam)
+    if tr is None:
+        ctx.count("text_forms_untranslatable")
+        return
+    try:
+        got = [tuple(r) for r in raw.execute(tr).fetchall()]
+    except sqlite3.Error as e:
+        ctx.count("text_forms_untranslatable")
+        ctx.seen("text_errors", f"{key}: {str(e)[:100]}")
+        return
+    ctx.count("text_forms_executed" if how == "text-form" else "cached_replays_executed")
+    kind = key
+    if fam == "mssql":
+        kind = "mssql-rownumber" if "ROW_NUMBER" in text else ("mssql-top" if re.match(r"\s*SELECT\s+(DISTINCT\s+)?TOP", text) else "mssql-offset-fetch")
+    elif fam == "oracle":
+        kind = "oracle-offset-fetch"
+    elif fam == "postgresql":
+        kind = "postgresql"
+    elif fam == "mysql":
+        kind = "mysql"
+    if how == "text-form":
         ctx.count({"mssql-rownumber": "text_mssql_rownumber", "mssql-top": "text_mssql_top", "mssql-offset-fetch": "text_offset_fetch",
                    "oracle-offset-fetch": "text_offset_fetch", "postgresql": "text_postgresql", "mysql": "text_mysql"}[kind])
-        same = (msort(got) == msort(expected)) if kind == "mssql-rownumber" or not exact_order else (got == expected)
-        if not same:
-            mech = f"text-form-wrong-slice:{kind}"
-            if kind == "mssql-rownumber" and desc["shape"] == "distinct":
-                mech = "mssql-rownumber-wrapper-breaks-distinct"
-            elif fam == "mssql" and desc["shape"] in ("union", "chain-union") and not re.search(r"\bTOP\b|\bOFFSET\b|\bFETCH\b|ROW_NUMBER", text):
-                mech = "mssql-compound-select-row-limit-not-rendered"
-            ctx.violation(mech, f"{desc}: {kind} text returned {got!r}, slice is {expected!r}",
-                          dict(desc, dialect_sql=text, sqlite_sql=tr, got=got, expected=expected))
-        ctx.case(dict(desc, form=kind), nontrivial=nontrivial)
+    same = (msort(got) == msort(expected)) if kind == "mssql-rownumber" or not exact_order else (got == expected)
+    if not same:
+        mech = f"{how}-wrong-slice:{kind}"
+        if kind == "mssql-rownumber" and desc["shape"] == "distinct":
+            mech = "mssql-rownumber-wrapper-breaks-distinct"
+        elif fam == "mssql" and desc["shape"] in ("union", "chain-union") and not re.search(r"\bTOP\b|\bOFFSET\b|\bFETCH\b|ROW_NUMBER", text):
+            mech = "mssql-compound-select-row-limit-not-rendered"
+        ctx.violation(mech, f"{desc}: {kind} {how} returned {got!r}, slice is {expected!r}",
+                      dict(desc, dialect_sql=text, sqlite_sql=tr, got=got, expected=expected))
+    ctx.case(dict(desc, form=how + ":" + kind), nontrivial=nontrivial)
 
 
 def compile_mech(fam, desc, e):
@@ -452,6 +498,12 @@ def oracle_rownum(ctx, raw, stmt, full, expected, desc, dialect, bounds, nontriv
     except sa_exc.CompileError as e:
         ctx.violation("compile-raised:oracle", f"{desc}: {e}", desc)
         return
+    oracle_rownum_text(ctx, raw, text, full, expected, desc, bounds, nontrivial, sqlite3)
+
+
+def oracle_rownum_text(ctx, raw, text, full, expected, desc, bounds, nontrivial, sqlite3):
+    lim, off = bounds
+    text = " ".join(text.split())
     n_le, n_rn = text.count("ROWNUM <= "), text.count("ora_rn > ")
     if n_le > 1 or n_rn > 1 or n_le + n_rn == 0 or text.count("ROWNUM AS ora_rn") != n_rn:
         ctx.count("oracle_rownum_untranslatable")
@@ -613,6 +665,209 @@ def chain_case(ctx, sa, conn, raw, md, rng, dialects, captured, compiler_cls, sq
     judge_forms(ctx, sa, conn, raw, lambda allow_fetch: build(), expected, desc, dialects, captured, compiler_cls, sqlite3, nontrivial,
                 native_mech="chained-slice-limit-offset-wrong-rows",
                 bounds=None if compound else (cur_lim, cur_off if cur_off else None), full=full)
+
+
+# --------------------------------------------------------------------------
+# cached statement shapes re-parameterised (the Engine's compiled cache in play)
+# --------------------------------------------------------------------------
+REPLAY_URLS = [
+    # key, family, url, dialect attribute overrides, create_engine kwargs
+    ("my", "mysql", "mysql+pymysql://u:p@h/db", {}, {}),
+    ("maria", "mysql", "mariadb+mariadbconnector://u:p@h/db", {}, {}),
+    ("pg", "postgresql", "postgresql+psycopg2://u:p@h/db", {}, {}),
+    ("ms_old", "mssql", "mssql+pyodbc://u:p@dsn", {"_supports_offset_fetch": False}, {}),
+    ("ms_new", "mssql", "mssql+pyodbc://u:p@dsn", {"_supports_offset_fetch": True}, {}),
+    ("ora", "oracle", "oracle+oracledb://u:p@h/?service_name=x", {"_supports_offset_fetch": True}, {}),
+    ("ora_old", "oracle", "oracle+oracledb://u:p@h/?service_name=x", {}, {"enable_offset_fetch": False}),
+]
+
+
+def make_replay_engines(ctx):
+    from vf.mon import fake_dbapi
+
+    out = []
+    for key, fam, url, attrs, kw in REPLAY_URLS:
+        try:
+            eng, fake = fake_dbapi.recording_engine(url, **kw)
+        except Exception:
+            ctx.count("dialect_unavailable")
+            continue
+        for k, v in attrs.items():
+            setattr(eng.dialect, k, v)
+        if key == "ora_old" and eng.dialect._supports_offset_fetch:
+            raise RuntimeError("legacy oracle engine not in ROWNUM mode")
+        out.append((key, fam, eng, fake, eng.connect()))
+    return out
+
+
+def _lit(v):
+    if v is None:
+        return "NULL"
+    if isinstance(v, bool) or not isinstance(v, int):
+        raise ValueError(f"unexpected parameter {v!r}")
+    return str(v)
+
+
+def inline_params(sql, params, paramstyle):
+    """The statement a server would see: the DBAPI parameters (integers only in this workload)
+    written into the text.  None when the text is not in the expected placeholder form."""
+    try:
+        if paramstyle in ("format", "qmark"):
+            tok = "%s" if paramstyle == "format" else "?"
+            parts = sql.split(tok)
+            vals = list(params or ())
+            if len(parts) != len(vals) + 1:
+                return None
+            out = parts[0]
+            for v, rest in zip(vals, parts[1:]):
+                out += _lit(v) + rest
+            return out.replace("%%", "%") if paramstyle == "format" else out
+        if paramstyle == "pyformat":
+            return re.sub(r"%\((\w+)\)s", lambda m: _lit(params[m.group(1)]), sql).replace("%%", "%")
+        if paramstyle == "named":
+            return re.sub(r"(?<!:):(\w+)", lambda m: _lit(params[m.group(1)]), sql)
+    except (KeyError, ValueError, TypeError):
+        return None
+    return None
+
+
+def replay_sequence(ctx, sa, conn, raw, md, rng, engines, sqlite3, ds):
+    """One statement *shape* (same cache key) executed several times with different
+    limit / offset values, zero included, in random order - natively on SQLite and through
+    the real Engine + compiled cache of every other dialect on a recording DBAPI.  What the
+    Engine handed to the DBAPI is inlined, translated and executed on SQLite."""
+    shape = rng.choice([x for x in SHAPES if x != "where"])
+    base = base_query(sa, md, shape, rng)
+    full = rows_of(conn.execute(base))
+    n = len(full)
+    has_l, has_o = rng.choice([(True, True), (True, True), (False, True), (True, False)])
+    lk = rng.choice(["int", "int", "bind", "expr"])
+    ok_ = rng.choice(["int", "int", "bind", "expr"])
+    pool = [0, 1, 2, max(n - 1, 0), n, n + 3]
+    steps = rng.randint(3, 5)
+    lvals = [rng.choice(pool) for _ in range(steps)] if has_l else [None] * steps
+    ovals = [rng.choice(pool) for _ in range(steps)] if has_o else [None] * steps
+    for vals in (lvals, ovals):     # zero somewhere in the sequence, first or later
+        if vals[0] is not None and 0 not in vals:
+            vals[rng.randrange(steps)] = 0
+        if vals[0] is not None and all(v == 0 for v in vals):
+            vals[rng.randrange(steps)] = 2
+    ctx.count("replay_sequences")
+    for step, (lv, ov) in enumerate(zip(lvals, ovals)):
+        state = rng.getstate()
+        stmt = apply_limit(sa, base, (lk, lv), (ok_, ov), rng, False)
+        if lk == "expr" or ok_ == "expr":
+            # keep the *shape* (two literals) but not the split: values differ per step anyway
+            pass
+        expected = expected_slice(full, lv, ov)
+        nontrivial = n >= 3 and 0 < len(expected) < n
+        desc = {"shape": shape, "dataset": [ctx.seed, ctx.shard, ds], "sequence": [list(lvals), list(ovals)], "step": step,
+                "limit": [lk, lv], "offset": [ok_, ov], "full_rows": n}
+        if step and (ovals[step - 1] == 0) != (ov == 0) and ov is not None:
+            ctx.count("replay_zero_nonzero_offset_transitions")
+        # native: real SQLite engine, its own compiled cache
+        got = rows_of(conn.execute(stmt))
+        ctx.count("replay_native_steps")
+        if got != expected:
+            ctx.violation("cached-replay-wrong-slice:sqlite", f"{desc}: SQLite returned {got!r}, slice is {expected!r}",
+                          dict(desc, got=got, expected=expected))
+        for key, fam, eng, fake, fconn in engines:
+            if fam == "mssql" and shape in ("union", "distinct"):
+                continue  # registered known findings of the text-form part; not re-reported per replay
+            before = len(eng._compiled_cache)
+            mark = fake.mark()
+            try:
+                fconn.execute(stmt)
+            except sa.exc.CompileError as e:
+                ctx.violation(compile_mech(fam, desc, e), f"{desc}: {e}", desc)
+                continue
+            evs = fake.since(mark, ("execute",))
+            if len(evs) != 1:
+                ctx.count("text_forms_untranslatable")
+                continue
+            if len(eng._compiled_cache) == before and step:
+                ctx.count("replay_cache_hits")
+            text = inline_params(evs[0].sql, evs[0].params, eng.dialect.paramstyle)
+            if text is None:
+                ctx.count("text_forms_untranslatable")
+                continue
+            d2 = dict(desc, engine=key)
+            if key == "ora_old":
+                if shape != "union":
+                    oracle_rownum_text(ctx, raw, text, full, expected, d2, (lv, ov), nontrivial, sqlite3)
+                continue
+            judge_text(ctx, raw, sqlite3, key, fam, text, expected, d2, nontrivial, True, how="cached-replay")
+
+
+# --------------------------------------------------------------------------
+# ORM entity queries with eagerly loaded collections
+# --------------------------------------------------------------------------
+def orm_eager_case(ctx, sa, orm, conn, raw, rng, ds, classes):
+    """select(Parent) / Query(Parent) with a joined-eager (option or lazy="joined"),
+    selectin or subquery loaded *collection*, x {limit only, offset only, both, neither}
+    x {asc, desc} x {plain, distinct, group_by}: the entities returned must be exactly the
+    slice of the unsliced entity list, each with its complete collection (children read
+    independently through the raw connection)."""
+    P, PJ = classes
+    strategy = rng.choice(["joinedload", "joinedload", "lazy-joined", "selectinload", "subqueryload"])
+    cls = PJ if strategy == "lazy-joined" else P
+    desc_order = rng.random() < 0.5
+    modifier = rng.choice(["plain", "plain", "distinct", "group_by", "where"])
+    legacy = rng.random() < 0.4
+    opt = {"joinedload": orm.joinedload, "selectinload": orm.selectinload, "subqueryload": orm.subqueryload}.get(strategy)
+
+    children = {}
+    for pid, cid in raw.execute("SELECT a_id, id FROM b ORDER BY id"):
+        children.setdefault(pid, []).append(cid)
+    where = "WHERE v > 0 OR v IS NULL" if modifier == "where" else ""
+    order = "v DESC, id DESC" if desc_order else "v, id"
+    full_ids = [r[0] for r in raw.execute(f"SELECT id FROM a {where} ORDER BY {order}")]
+    n = len(full_ids)
+    lv, ov = rng.choice([(None, None), (None, rng.choice([1, 2, 3, n - 1, n, 0])), (None, rng.choice([1, 2, n // 2])),
+                         (rng.choice([0, 1, 2, n - 1, n + 2]), None),
+                         (rng.choice([1, 2, 3, n]), rng.choice([0, 1, 2, n - 1]))])
+    want = [(i, sorted(children.get(i, []))) for i in expected_slice(full_ids, lv, ov)]
+
+    def shape(q):
+        ob = (cls.v.desc(), cls.id.desc()) if desc_order else (cls.v, cls.id)
+        if modifier == "where":
+            q = q.where(sa.or_(cls.v > 0, cls.v.is_(None)))
+        if modifier == "distinct":
+            q = q.distinct()
+        if modifier == "group_by":
+            q = q.group_by(cls.id)
+        q = q.order_by(*ob)
+        if lv is not None:
+            q = q.limit(lv)
+        if ov is not None:
+            q = q.offset(ov)
+        return q
+
+    with orm.Session(bind=conn) as s:   # fresh identity map: nothing loaded earlier can hide a truncated collection
+        if legacy:
+            q = s.query(cls)
+            if opt is not None:
+                q = q.options(opt(cls.bs))
+            ents = shape(q).all()
+        else:
+            q = sa.select(cls)
+            if opt is not None:
+                q = q.options(opt(cls.bs))
+            ents = s.execute(shape(q)).unique().scalars().all()
+        got = [(e.id, sorted(c.id for c in e.bs)) for e in ents]
+    desc = {"shape": "orm-eager", "dataset": [ctx.seed, ctx.shard, ds], "strategy": strategy, "modifier": modifier,
+            "desc": desc_order, "legacy_query": legacy, "limit": lv, "offset": ov, "full_rows": n}
+    ctx.count("orm_eager_collection_cases")
+    if strategy in ("joinedload", "lazy-joined"):
+        ctx.count("orm_joined_eager_cases")
+        if lv is None and ov:
+            ctx.count("orm_joined_eager_offset_only")
+    if any(len(c) != 1 for _, c in want):
+        ctx.count("orm_eager_parents_with_0_or_many_children")
+    if got != want:
+        ctx.violation("orm-eager-collection-wrong-slice", f"{desc}: got {got!r}, slice of the unsliced entities is {want!r}",
+                      dict(desc, got=got, expected=want))
+    ctx.case(desc, nontrivial=n >= 3 and 0 < len(want) < n)
 
 
 def one_case(ctx, sa, conn, raw, base, full, shape, ds, lim, off, rng, dialects, captured, compiler_cls, sqlite3):
